@@ -171,6 +171,46 @@ def route(ctx: Any) -> List[Ob]:
             if not qu:
                 want.add('HISTORY')
             obs.append(ob(R, f, f'source port {"other" if ucast_source else "5353"}, {"QU" if qu else "QM"} question', f'routines: {sorted(want)} (QM questions are remembered for duplicate suppression, QU never)', got == {frozenset(want)}, f'got {[sorted(g) for g in got]}'))
+    # (a') what the routine works from: every question of every packet contributes its answer strategies (a question that is
+    # dropped here is never answered), nothing is answered only when there is no strategy at all, and the query counts as a
+    # probe exactly when one of its packets is one (a probe's records are claims, not known answers; a non-probe's are)
+    f_ar = prog.func(QH + '.async_response')
+    acfg = cfg_of(f_ar.node)
+    p_msgs = f_ar.params[1]
+    qloops = [n for n in acfg.nodes if n.kind == 'for' and n.in_loop and any(call_name(c) == '_get_answer_strategies' for m_ in acfg.nodes if m_.in_loop and n.ast in m_.in_loop for c in m_.calls())]
+    ok_st, why_st = False, 'no loop over the questions that collects strategies'
+    if len(qloops) == 1 and isinstance(qloops[0].ast.target, ast.Name):
+        qv_ = qloops[0].ast.target.id
+        oc_st, _ = fd.run_paths(prog, f_ar.module, acfg, {}, lambda n, e: [('EXT', norm(c.args[0])) for c in fd.node_calls(n, e) if call_name(c) == 'extend' and c.args and isinstance(c.args[0], ast.Call) and call_name(c.args[0]) == '_get_answer_strategies'], start=qloops[0], stop=lambda n: n is qloops[0], loop_bound=1, for_iter=lambda n, e: True)
+        per_q = {tuple(x for x in strip_ret(t) if isinstance(x, tuple)) for t in oc_st}
+        outer_ok = any(o.kind == 'for' and norm(o.ast.iter) == p_msgs and qloops[0].in_loop and o.ast in qloops[0].in_loop for o in acfg.nodes)
+        ok_st = outer_ok and len(per_q) == 1 and len(next(iter(per_q))) == 1 and qv_ in next(iter(per_q))[0][1]
+        why_st = f'per question: {sorted(map(str, per_q))[:2]}; over every packet: {outer_ok}'
+    obs.append(ob(R, f_ar, qloops[0].ast if qloops else 'for msg in msgs: for question in msg._questions: strategies.extend(...)', 'the strategies of every question of every packet are collected', ok_st, why_st))
+    st_names = sorted({norm(c.func.value) for c in walk_local_ordered(f_ar.node) if isinstance(c, ast.Call) and call_name(c) == 'extend' and c.args and isinstance(c.args[0], ast.Call) and call_name(c.args[0]) == '_get_answer_strategies' and isinstance(c.func, ast.Attribute)})
+    if len(st_names) == 1:
+        for have in (False, True):
+            oc_h, und_h = traces(ctx, f_ar, {st_names[0]: (['strategy'] if have else [])}, lambda n, e: ['BUILD' for c in fd.node_calls(n, e) if call_name(c) == '_QueryResponse'], loop_bound=1, for_iter=lambda n, e: False)
+            outs_h = {('BUILD' in strip_ret(t), next((x[1] for x in t if isinstance(x, tuple) and x[0] == 'ret'), 'no-return')) for t in oc_h}
+            good_h = (all(b and r is not None for b, r in outs_h) if have else outs_h == {(False, None)}) and bool(outs_h)
+            obs.append(ob(R, f_ar, f'{"some" if have else "no"} answer strategy for the query', 'a response is worked out' if have else 'nothing is answered (None), nothing is built', good_h, f'(response built, returned) per path: {sorted(map(str, outs_h))[:3]}'))
+    ploops = [n for n in acfg.nodes if n.kind == 'for' and not n.in_loop and norm(n.ast.iter) == p_msgs and any(call_name(c) == 'is_probe' for m_ in acfg.nodes if m_.in_loop and n.ast in m_.in_loop for c in (list(m_.calls()) + [x for e in m_.exprs() for x in ast.walk(e) if isinstance(x, ast.Call)]))]
+    if len(ploops) != 1:
+        raise AnalysisError('anchor vanished: the loop of async_response that classifies the packets (probe / known answers)')
+    flag = next((t.targets[0].id for t in walk_local_ordered(f_ar.node) if isinstance(t, ast.Assign) and isinstance(t.targets[0], ast.Name) and isinstance(t.value, ast.Constant) and t.value.value is True and any(l_ is ploops[0].ast for l_ in (next((m_.in_loop for m_ in acfg.nodes if m_.ast is t), []) or []))), None)
+    init = [t for t in walk_local_ordered(f_ar.node) if isinstance(t, ast.Assign) and isinstance(t.targets[0], ast.Name) and flag is not None and t.targets[0].id == flag and isinstance(t.value, ast.Constant) and t.value.value is False]
+    for probe in (True, False):
+        def eff_pr(n: Any, e: Any) -> List[Any]:
+            out_ = []
+            if n.kind == 'stmt' and isinstance(n.ast, ast.Assign) and isinstance(n.ast.targets[0], ast.Name) and n.ast.targets[0].id == flag:
+                out_.append(('FLAG', e.ev(n.ast.value)))
+            out_ += ['KNOWN' for c in fd.node_calls(n, e) if call_name(c) == 'extend' and c.args and isinstance(c.args[0], ast.Call) and call_name(c.args[0]) == 'answers']
+            return out_
+
+        oc_pr, und_pr = fd.run_paths(prog, f_ar.module, acfg, {'.is_probe()': probe}, eff_pr, start=ploops[0], stop=lambda n: n is ploops[0], loop_bound=1, for_iter=lambda n, e: True)
+        per_p = {tuple(x for x in strip_ret(t) if x == 'KNOWN' or isinstance(x, tuple) and x[0] == 'FLAG') for t in oc_pr}
+        want_p = {(('FLAG', True),)} if probe else {('KNOWN',)}
+        obs.append(ob(R, f_ar, f'packet {"is" if probe else "is not"} a probe', 'the query is marked a probe (its records are not known answers)' if probe else 'its answer section is taken as known answers (the probe mark is left alone)', flag is not None and len(init) == 1 and per_p == want_p and not und_pr, f'per packet: {sorted(map(str, per_p))}; undecided {und_pr}'))
     # (b) QU answers
     obs.extend(qu_answer_table(ctx, R))
     obs.extend(mcast_table(ctx, R))
